@@ -176,6 +176,11 @@ WANT_LIT = {
     "bs_only": "\\",
     "bs_quote": "q'q;",
     "bs_t": "tab\t.",
+    # source a\\tb... : an escaped backslash followed by a letter is a backslash and that letter
+    "bs_bs_letters": "a" + chr(92) + "tb" + chr(92) + "nc" + chr(92) + "rd" + chr(92) + "0e",
+    "bs_bs_quote2": "it's " + chr(92) + "' end",
+    "bs_dquote": 'say "hi"',
+    "bs_bs_semi_dash": "^" + chr(92) + "d+;" + chr(92) + "s*--x",
     "newline": "new\nline",
     "unicode": "❄ é 日本 \U0001f389",
     "percent": "100% %s",
@@ -306,6 +311,113 @@ for ps, sql, params, want in NOP:
 for ps in c16.PATSETS:
     for f in c16.FIXTURE:
         check(f"fixture {f!r} vs {ps}", c16.nop_expected_match(ps, f, None), False)
+
+# ---- 7b. pattern sets: hand-written table of which pattern matches which statement (re.match, IGNORECASE) ----------
+S_WANT = {
+    "call x()": ["anchor"],
+    "select 1 from nope": ["anchor_dot"],
+    "select 1\n from nope": [],  # `.` stops at the line break
+    "grant select on t to role r": ["group"],
+    "insert into t select * from t": ["backref"],
+    "INSERT INTO t SELECT * FROM T": ["backref"],  # a backreference compares case-insensitively under IGNORECASE
+    "insert into t select * from s": [],  # the backreference must repeat the group
+    "update t set v = t.v": ["named2"],
+    "select 1,\n 2": ["flag_s"],  # (?s): `.` crosses the line break in this pattern only
+    "select 1,\n 3": [],
+    "commit": ["flag_x"],  # (?x): the blanks of the pattern are layout
+    "rollback": ["alt"],
+    "select 'rollback'": [],  # re.match: both alternatives are tried at the start only
+    "delete from t where k = 1": [],
+    "truncate table s": [],
+    "truncate table t": ["named"],
+    "select count(*) from t": [],
+}
+ALL = tuple(c16.S_PATTERNS)
+check("S_STMTS", sorted(c16.S_STMTS), sorted(S_WANT))
+for sql, want in S_WANT.items():
+    check(f"s_matching all {sql!r}", c16.s_matching(ALL, sql), want)
+    check(f"s_matching reversed {sql!r}", c16.s_matching(ALL[::-1], sql), want)
+check("s_matching order of the set", c16.s_matching(("never", "backref", "group"), "insert into t select * from t"), ["backref"])
+check("s_matching not in set", c16.s_matching(("group", "never"), "insert into t select * from t"), [])
+for pid in c16.S_PATTERNS:
+    if pid != "never":
+        check(f"pattern {pid} has a statement", any(c16.s_matching((pid,), s) for s in c16.S_STMTS), True)
+    for f in c16.FIXTURE:
+        check(f"fixture {f!r} vs pattern {pid}", c16.s_matching((pid,), f), [])
+check("kinds", sorted({k for k, _ in c16.S_PATTERNS.values()}), ["alt", "anchor", "backref", "flag", "group", "named", "never"])
+check("S_CORE known", all(p in c16.S_PATTERNS for p in c16.S_CORE), True)
+n = len(c16.S_PATTERNS)
+check("pattern sets thorough", len(c16.s_pattern_sets("thorough")), n + n * (n - 1) + n * (n - 1) * (n - 2))
+k = len(c16.S_CORE)
+check("pattern sets quick", len(c16.s_pattern_sets("quick")), n + n * (n - 1) + k * (k - 1) * (k - 2))
+check("pattern sets unique", len(set(c16.s_pattern_sets("thorough"))), len(c16.s_pattern_sets("thorough")))
+check("sets: both orders", ("group", "backref") in c16.s_pattern_sets("quick") and ("backref", "group") in c16.s_pattern_sets("quick"), True)
+
+# verdicts on synthetic outcomes
+ST = (("rows", "tuple", [c16.STATUS_ROW]), 1, ("desc", [("status", 2)]), None)
+ROW = (("rows", "tuple", [(2,)]), 2, ("desc", [("number of rows inserted", 0)]), None)
+check("status ok", c16.status_problems((None, [ST])), [])
+check("status dict ok", c16.status_problems((None, [(("rows", "dict", [(("status", c16.STATUS_ROW[0]),)]), 1, ("desc", [("status", 2)]), None)])), [])
+check("status raised", c16.status_problems((("x.E", 1, "2"), [])), [("raised", ("x.E", 1, "2"))])
+check("status executed", [p[0] for p in c16.status_problems((None, [ROW]))], ["rows", "column"])
+PSET = ("group", "backref")
+unm = [s for s in c16.S_STMTS if not c16.s_matching(PSET, s)]
+good_with = {"fixture": [], "outcomes": [(None, [ST]) if c16.s_matching(PSET, s) else (None, [ROW]) for s in c16.S_STMTS], "state": ("D", "T", False)}
+good_without = {"fixture": [], "outcomes": [(None, [ROW]) for _ in unm], "state": ("D", "T", False)}
+v = c16.nops_verdicts(PSET, good_with, good_without)
+check("verdicts all fine", [x[2] for x in v], [False] * (len(c16.S_STMTS) + 1))
+check("verdict classes", sorted({(x[0], x[1]) for x in v}), [
+    ("C16.nop.match", "set:final-state,kinds=backref+group"),
+    ("C16.nop.match", "set:matched-by=backref@later"),
+    ("C16.nop.match", "set:matched-by=group@first"),
+    ("C16.nop.other", "set:unmatched,kinds=backref+group"),
+])
+bad_with = dict(good_with, outcomes=[(None, [ROW]) for _ in c16.S_STMTS])  # the matching statements were executed
+v = c16.nops_verdicts(PSET, bad_with, good_without)
+check("verdict first divergence only", [(x[1], x[2]) for x in v if x[2]], [("set:matched-by=group@first", True)])
+check("verdict stops", v[-1][3]["statement"], "grant select on t to role r")
+v = c16.nops_verdicts(PSET, dict(good_with, state=("D2", "T", False)), good_without)
+check("verdict final state", [(x[0], x[1]) for x in v if x[2]], [("C16.nop.match", "set:final-state,kinds=backref+group")])
+v = c16.nops_verdicts(PSET, dict(good_with, fixture=[("create table t", "re.error", None, None)]), good_without)
+check("verdict fixture", [(x[0], x[1], x[2]) for x in v], [("C16.nop.other", "set:unmatched,kinds=backref+group", True)])
+diff_without = dict(good_without, outcomes=[(None, [ST])] + good_without["outcomes"][1:])
+v = c16.nops_verdicts(PSET, good_with, diff_without)
+check("verdict unmatched differs", [(x[0], x[1]) for x in v if x[2]], [("C16.nop.other", "set:unmatched,kinds=backref+group")])
+
+# ---- 7c. flows ------------------------------------------------------------------------------------------------------
+check("flow literal sq", c16.flow_literal("sq", "bs_bs"), "'a" + chr(92) * 2 + "b'")
+check("flow literal dq", c16.flow_literal("dq", "d_bs"), "$$a" + chr(92) + "tb$$")
+check("flow literal const", c16.flow_literal("const", "hex"), "x'4142'")
+check("flow statements", c16.flow_statements("set_set_select", "sq", "quote2"), ["set v = 'it''s'", "set w = $v", "select $w"])
+check("flow statements ctas", c16.flow_statements("ctas_select", "dq", "d_semi"), ["create table c3 as select $$d;d$$ as v", "select v from c3"])
+for fam in ("sq", "dq", "const"):
+    src = {"sq": c16.LITS, "dq": c16.DLITS, "const": c16.CONSTS}[fam]
+    check(f"flow quick {fam} known", all(x in src for x in c16.FLOW_LITS_QUICK[fam]), True)
+    check(f"flow thorough {fam}", c16.flow_lit_alphabet(fam, "thorough"), list(src))
+for fid, (stmts, idx, fams) in c16.FLOWS.items():
+    check(f"flow {fid} slot in the first statement only", ["{LIT}" in s for s in stmts], [True] + [False] * (len(stmts) - 1))
+    check(f"flow {fid} probe is the last statement", idx, len(stmts) - 1)
+    for st in c16.STYLES:
+        ss = c16.flow_statements(fid, fams[0], c16.flow_lit_alphabet(fams[0], "quick")[0])
+        check(f"flow {fid} style {st} splits back", codes(c16.STYLES[st](ss)), [S.normalise(x) for x in ss])
+
+
+def es_side(values, exc=None):
+    return {"exc": exc, "raw": [(("rows", "tuple", [(v,)]), 1, ("desc", []), None) for v in values]}
+
+
+BSV = "a" + chr(92) + "tb"
+check("flow ok", c16.compare_flow(es_side(["s", BSV]), 1, BSV, ("value", BSV)), [])
+check("flow wrong value", [x[:2] for x in c16.compare_flow(es_side(["s", "a\tb"]), 1, BSV, ("value", BSV))], [("C16.flow", "value")])
+check("flow wrong type", [x[:2] for x in c16.compare_flow(es_side(["s", 16706]), 1, b"AB", ("value", b"AB"))], [("C16.flow", "value")])
+check("flow engine reads the constant differently", [x[:2] for x in c16.compare_flow(es_side(["s", "X"]), 1, BSV, ("value", "X"))], [("note", "direct_path_literal_deviation")])
+check("flow differs from engine and reference", [x[:2] for x in c16.compare_flow(es_side(["s", "Y"]), 1, BSV, ("value", "X"))], [("C16.flow", "value")])
+check("flow raised", [x[:2] for x in c16.compare_flow(es_side([], exc=("E", 1, "2", "m")), 1, BSV, ("value", BSV))], [("C16.flow", "raised")])
+check("flow raised like the constant alone", [x[:2] for x in c16.compare_flow(es_side([], exc=("E", 1, "2", "m")), 1, BSV, ("raised", ("E", 1, "2")))], [("note", "direct_path_literal_deviation")])
+check("class flow", c16.class_key("C16.flow", ("FLOW", "set_select", "sq", "bs_bs"), {"exc": None, "n": 2}), "flow=set_select,sq=bs_bs")
+check("class flow other part", c16.class_key("C16.flow", ("LIT", "select", "plain", "oneline", "alone"), {"exc": None, "n": 1}), None)
+check("class flow result", c16.class_key("C16.result", ("FLOW", "set_select", "const", "hex"), {"exc": None, "n": 2}), "flow=set_select,const=hex")
+check("class flow literal clause n/a", c16.class_key("C16.literal", ("FLOW", "set_select", "const", "hex"), {"exc": None, "n": 2}), None)
 
 # ---- 8. comparison function on synthetic outcomes ---------------------------------------------------------------------
 
